@@ -16,6 +16,7 @@ from inline_snapshot.fix_pytest_diff import fix_pytest_diff
 from . import _config
 from . import _external
 from . import _find_external
+from . import _problems
 from ._change import apply_all
 from ._code_repr import used_hasrepr
 from ._find_external import ensure_import
@@ -501,6 +502,7 @@ def pytest_sessionfinish(session, exitstatus):
                 if any_changes and apply_changes(flag):
                     used_changes += changes[flag]
 
+            shown_problems = set(_problems.all_problems)
             report_problems(console)
 
             if used_changes:
@@ -536,6 +538,11 @@ def pytest_sessionfinish(session, exitstatus):
                         state().storage.persist(external_path)
 
                 cr.fix_all()
+
+                # problems which occurred while the files were written
+                # and which are not already shown above
+                _problems.all_problems -= shown_problems
+                report_problems(console)
 
             unused_externals = _find_external.unused_externals()
 
